@@ -7,6 +7,9 @@ vlib.register_const_dump('kernel', 'multiboot', os.path.join(H, 'zz_verif_consts
 import gen_trans
 gen_trans.register('pmm_boot.json')    # C02's translation of BootMemAllocator.AllocFrame: Props/C10_C02_trans.v composes it with VisitMemRegions
 vlib.register_const_dump('kernel', 'mm/pmm', os.path.join(vlib.ROOT, 'harness/kernel/mm/pmm', 'zz_verif_consts_test.go'))   # (same registration as checks/C02.py)
+for _cfg in ('mm_vmm.json', 'vmm_pdt.json', 'vmm_map.json', 'vmm_kernel.json'):   # C05's translation of setupPDTForKernel (+ what Vmm/KernelTrans.v needs): Props/C10_C05_trans.v composes it with VisitElfSections
+    gen_trans.register(_cfg)
+vlib.register_const_dump('kernel', 'mm/vmm', os.path.join(vlib.ROOT, 'harness/kernel/mm/vmm', 'zz_verif_consts_test.go'))   # (same registration as checks/pt_common.py)
 gen_trans.register('multiboot.json')   # Go -> Gallina translation of findTagByType / VisitMemRegions / GetFramebufferInfo / VisitElfSections (Gen/Trans_multiboot.v, used by Multiboot/DecodeTrans*.v)
 
 # must match the harness (zz_verif_c10_test.go): data areas inside the two PROT_NONE reservations
@@ -170,7 +173,8 @@ class C10(flow.Spec):
     prop = 'C10'
     props_files = ['theories/Props/C10.v', 'theories/Props/C10_examples.v',
                    'theories/Props/C10_trans.v', 'theories/Props/C10_trans_examples.v',
-                   'theories/Props/C10_C02_trans.v', 'theories/Props/C10_C02_trans_examples.v']
+                   'theories/Props/C10_C02_trans.v', 'theories/Props/C10_C02_trans_examples.v',
+                   'theories/Props/C10_C05_trans.v', 'theories/Props/C10_C05_trans_examples.v']
     model_targets = ['theories/Multiboot/Case.vo']
     pkg = 'multiboot'
     harness = [os.path.join(H, 'zz_verif_c10_test.go')]
@@ -186,7 +190,7 @@ class C10(flow.Spec):
                    'command-line keys/values/flags are ASCII without NUL; the separators are any white space of unicode.IsSpace (ASCII or UTF-8 encoded U+0085, U+00A0, U+1680, U+2000-200A, U+2028/9, U+202F, U+205F, U+3000); non-ASCII bytes inside words and tokens with two or more `=` are outside the well-formed set (agreement-tested; the model follows Go byte for byte: invalid UTF-8 is never white space)',
                    'unaligned loads are allowed (amd64); the ELF tag layout is the one of the Go struct / GRUB (u32 num, u32 entsize, u32 shndx), entry size 64',
                    'blocks are generated by a Python mirror of `encode`; the Coq model recomputes `encode` on the attached mbinfo and the observation carries the comparison flag, so a divergence between the two encoders breaks the correspondence',
-                   'translation tie (Props/C10_trans.v, Props/C10_C02_trans.v): findTagByType, VisitMemRegions, GetFramebufferInfo and VisitElfSections of the model are proved equal to the Gallina term gen/gotrans regenerates from multiboot.go on every run (struct pointers as addresses, field reads as loads at offsets computed from the struct declarations and cross-checked against unsafe.Offsetof of the Go compiler), for every memory whose cells are bytes; trusted there: the translator (gen/gotrans incl. ext_mb.go), Lib/GoOps.v + gsext, little-endian loads, and the contract of the visitor seam (it reads the entry / string presented and does not write the block; the Len of a string header is taken as unsigned); GetBootCmdLine and RGBColorInfo are not translated',
+                   'translation tie (Props/C10_trans.v, Props/C10_C02_trans.v, Props/C10_C05_trans.v): findTagByType, VisitMemRegions, GetFramebufferInfo and VisitElfSections of the model are proved equal to the Gallina term gen/gotrans regenerates from multiboot.go on every run (struct pointers as addresses, field reads as loads at offsets computed from the struct declarations and cross-checked against unsafe.Offsetof of the Go compiler), for every memory whose cells are bytes; trusted there: the translator (gen/gotrans incl. ext_mb.go), Lib/GoOps.v + gsext, little-endian loads, and the contract of the visitor seam (it reads the entry / string presented and does not write the block; the Len of a string header is taken as unsigned); GetBootCmdLine and RGBColorInfo are not translated',
                    'findTagByType on a malformed block can loop forever; the harness predicts this with its own bounded walk (same bound as the model fuel) and does not call the decoder then']
 
     # ---- generators --------------------------------------------------------------------
